@@ -103,6 +103,53 @@ impl std::io::Write for FailWriter {
     fn flush(&mut self) -> std::io::Result<()> { Ok(()) }
 }
 
+/// a sink that takes at most `per` bytes per call — through `write` and through `write_vectored` alike (a packetising
+/// adaptor, a non-blocking socket with little room): what it has received, in order, is the stream
+struct TrickleWriter { per: usize, got: Vec<u8> }
+impl std::io::Write for TrickleWriter {
+    fn write(&mut self, buf: &[u8]) -> std::io::Result<usize> {
+        let n = buf.len().min(self.per);
+        self.got.extend_from_slice(&buf[..n]);
+        Ok(n)
+    }
+    fn write_vectored(&mut self, bufs: &[std::io::IoSlice<'_>]) -> std::io::Result<usize> {
+        let mut left = self.per;
+        for b in bufs {
+            let n = b.len().min(left);
+            self.got.extend_from_slice(&b[..n]);
+            left -= n;
+            if left == 0 { break; }
+        }
+        Ok(self.per - left)
+    }
+    fn flush(&mut self) -> std::io::Result<()> { Ok(()) }
+}
+
+/// `write_message` into sinks that accept 1, 2, 3, 5, 7, 11, 12, 13, 64 bytes per call: the bytes received are the frame a `Vec`
+/// receives (seed C20-M: header and payload offered in one vectored write, a short count taken to mean "the header is through").
+fn codec_trickle_sinks(w: &mut Out, rng: &mut Rng, thorough: bool) {
+    for _ in 0..(if thorough { 120 } else { 24 }) {
+        let m = gen_msg(rng);
+        let mut whole = Vec::new();
+        if !matches!(guarded(|| Codec::new().write_message(&mut whole, &m)), Ok(Ok(()))) { continue; }
+        for per in [1usize, 2, 3, 5, 7, 11, 12, 13, 64] {
+            let mut tw = TrickleWriter { per, got: Vec::new() };
+            let r = guarded(|| Codec::new().write_message(&mut tw, &m));
+            w.count("writemsg/slow-sink");
+            let bad: Option<(&str, String)> = match r {
+                Ok(Ok(())) if tw.got == whole => None,
+                Ok(Ok(())) => Some(("frame-differs-on-a-slow-sink", format!("write_message into a sink taking {per} byte(s) per call returned Ok but delivered {} bytes that are not the frame ({} bytes) of {}", tw.got.len(), whole.len(), &desc_msg(&m)[..desc_msg(&m).len().min(60)]))),
+                Ok(Err(e)) => Some(("slow-sink-refused", format!("write_message into a sink taking {per} byte(s) per call failed: {e}"))),
+                Err(()) => Some(("panic", "write_message panicked on a slow sink".to_string())),
+            };
+            if let Some((key, what)) = bad {
+                let l = w.case("writemsg -", "TRICKLE", true);
+                w.fail(l, key, &what);
+            }
+        }
+    }
+}
+
 /// ONE codec value used for a whole conversation: writes that fail (a refused oversize message, a transport error)
 /// and reads of frames of different sizes must leave nothing behind that changes a later message.
 fn codec_sequences(w: &mut Out, rng: &mut Rng, thorough: bool) {
@@ -207,6 +254,7 @@ Non-trivial: payload ≥ 12 bytes; distinct = distinct query lines."
     let mut rng = Rng::new(seed ^ 0xC20);
     codec_sequences(w, &mut rng, thorough);
     codec_large_payloads(w, &mut rng, thorough);
+    codec_trickle_sinks(w, &mut rng, thorough);
     let types = [MessageType::SignatureRequest, MessageType::SignatureResponse, MessageType::DeltaData, MessageType::Ack, MessageType::Error, MessageType::Ping, MessageType::Pong];
     // ---- headers
     for t in types {
